@@ -70,7 +70,8 @@ pub fn gen_dn_value(rng: &mut Rng, max: usize) -> DnV {
 				let u: u16 = match rng.below(4) {
 					0 => 0x41 + rng.below(26) as u16,
 					1 => 0x4e2d,
-					2 => 0xfffe,
+					// code units on either side of the surrogate block and of the other 4 KiB-aligned edges
+					2 => *rng.pick(&[0xfffeu16, 0xcfff, 0xd000, 0xd55c, 0xd7ff, 0xe000, 0xefff, 0xf000, 0xf8ff, 0xfeff, 0x00ff, 0x0100, 0x07ff, 0x0800]),
 					_ => loop {
 						let v = rng.below(0xffff) as u16;
 						if !(0xd800..=0xdfff).contains(&v) {
